@@ -124,7 +124,7 @@ def shaped_games():
         out.append(mk_game([P1, PR, PR, PR, PR], [[("a", 1), ("b", 3)], [(eps, 4), (1 - eps, 3)], [(0.5, 4), (0.5, 3)], [(1, 3)], [(1, 4)]], [1, 1, 1, 0, 0], [4]))
     # slow convergence: a self-loop left with probability 5e-4 (about 12 000 sweeps), competing with a sure 0.6
     out.append(mk_game([P1, PR, PR, PR, PR], [[("retry", 1), ("shot", 2)], [(0.9995, 1), (0.0005, 3)], [(0.6, 3), (0.4, 4)], [(1, 3)], [(1, 4)]], [0, 0, 1, 0, 0], [3]))
-    out.append(mk_game([P2, PR, PR, PR, PR], [[("loop", 1), ("pay", 2)], [(0.9995, 1), (0.0005, 3)], [(1, 3)], [(1, 3)], [(1, 4)]], [0, 1, 1500, 0, 0], [3]))
+    out.append(mk_game([P2, PR, PR, PR, PR], [[("loop", 1), ("pay", 2)], [(0.9995, 1), (0.0005, 3)], [(0.5, 3), (0.5, 4)], [(1, 3)], [(1, 4)]], [0, 1, 1995, 0, 0], [3]))
     # player-only end component
     out.append(mk_game([P1, P2, PR, PR], [[("a", 1), ("b", 2)], [("a", 0), ("b", 3)], [(1, 2)], [(1, 3)]], [1, 1, 0, 0], [2]))
     return out
